@@ -13,6 +13,9 @@
 From Coercion.Base Require Import Plan.
 From Coercion.Query Require Import Rows Query Spec.
 
+(* compact notation for long id lists in cases: start, start+1, ..., start+n-1 *)
+Definition nrange (start : N) (n : nat) : list N := map (fun k => (start + N.of_nat k)%N) (seq 0 n).
+
 Definition result_eqb (a b : result) : bool :=
   N.eqb (x_id a) (x_id b) && N.eqb (x_group a) (x_group b) && N.eqb (x_name a) (x_name b)
   && N.eqb (x_descr a) (x_descr b) && Z.eqb (x_submit a) (x_submit b) && N.eqb (x_status a) (x_status b)
